@@ -30,6 +30,30 @@ def ext_call(eng, st, name, args, kwargs, node):
             eng.fr.assumed_used.add("io.BufferedReader over BytesIO: same content/position, peek(n) returns a non-empty prefix of the rest unless at EOF")
             return [(st, f)]
         raise Unsupported("BufferedReader over a non-file")
+    if name in ("urllib.parse:urlparse",):
+        u = eng.as_iseq(st, args[0], node)
+        ok = z3.Function("url_ok", ISq, B)(u.t)
+        eng.implicit_error(st, ok, "ValueError", node, "urlparse-invalid")
+        eng.fr.assumed_used.add("urllib.parse.urlparse(bytes): .path / .query are functions of the argument (url_path, url_query); "
+                                "ValueError for an invalid netloc")
+        from .values import VRecord
+        return [(st, VRecord("ParseResult", {"path": VSeq(z3.Function("url_path", ISq, ISq)(u.t), "bytes"),
+                                              "query": VSeq(z3.Function("url_query", ISq, ISq)(u.t), "bytes")}))]
+    if name in ("urllib.parse:parse_qsl",):
+        q = eng.as_iseq(st, args[0], node)
+        eng.fr.assumed_used.add("urllib.parse.parse_qsl: a function of the query string; with encoding='latin-1' every decoded "
+                                "character is < 256")
+        from .values import VList, wt_seq
+        et = "str" if q.kind == "str" else "bytes"
+        L = z3.Function("qsl_" + et, ISq, VSq)(q.t)
+        st.assume(*wt_seq(L, ("tuple", et, et)))
+        if et == "str":
+            j, i2 = fresh("j", I), fresh("i", I)
+            for idx in (0, 1):
+                comp = Val.strval(VS.at(Val.tval(VS.at(L, j)), z3.IntVal(idx)))
+                st.assume(z3.ForAll([j, i2], z3.Implies(z3.And(0 <= j, j < VS.len(L), 0 <= i2, i2 < IS.len(comp)),
+                                                        IS.at(comp, i2) < 256), patterns=[IS.at(comp, i2)]))
+        return [(st, VList(L, ("tuple", et, et), "list"))]
     if name == "collections.Counter":
         if not args:
             raise Unsupported("empty Counter()")
